@@ -32,13 +32,13 @@ def pixels(fn):
     return h.hexdigest()
 
 
-def call(rf, corr, param, ow, as_str, model, kshape, mbm, via_cli=None):
+def call(rf, corr, param, ow, as_str, model, kshape, mbm, via_cli=None, mask_partial=False):
     """One process() call; returns 0 ok / 1 FileExistsError / 2 other."""
     from homonim import Model
     c = str(corr) if as_str else Path(corr)
     p = None if param is None else (str(param) if as_str else Path(param))
     try:
-        rf.process(c, Model(model), kshape, param_filename=p, build_ovw=False, overwrite=ow,
+        rf.process(c, Model(model), kshape, param_filename=p, build_ovw=False, overwrite=ow, model_config=dict(mask_partial=mask_partial),
                    block_config=dict(threads=2, max_block_mem=mbm))
         return 0, ''
     except FileExistsError:
@@ -77,18 +77,24 @@ def body(run):
         with RasterFuse(pair['src_fn'], pair['ref_fn']) as rf:
             ncalls = rng.randint(1, 4)
             last_ok = None
+            # every fourth history re-uses ONE object with the same model / kernel / block size and flips a single setting between the calls
+            # (anything the object remembers from an earlier call - block lists, models, profiles - must not leak into the next one)
+            flip = hi % 4 == 1
+            if flip:
+                ncalls, f_model, f_kshape, f_mp = rng.randint(2, 3), rng.choice(ik.MODELS), rng.choice([(3, 3), (5, 3)]), rng.random() < 0.5
             for ci in range(ncalls):
                 as_str = rng.random() < 0.5
-                ow = rng.random() < 0.5
+                ow = rng.random() < 0.5 or flip
                 wp = rng.random() < 0.6
-                model = rng.choice(ik.MODELS)
-                kshape = rng.choice([(3, 3), (1, 3), (5, 3)])
+                model = rng.choice(ik.MODELS) if not flip else f_model
+                kshape = rng.choice([(3, 3), (1, 3), (5, 3)]) if not flip else f_kshape
+                mp = (rng.random() < 0.3) if not flip else (f_mp if ci % 2 == 0 else not f_mp)
                 before = snapshot(d)
                 ce, pe = corr.exists(), param.exists()
-                obs, err = call(rf, corr, param if wp else None, ow, as_str, model, kshape, mbm)
+                obs, err = call(rf, corr, param if wp else None, ow, as_str, model, kshape, mbm, mask_partial=mp)
                 after = snapshot(d)
                 changed = {k for k in set(before) | set(after) if before.get(k) != after.get(k)}
-                step = dict(call=ci, as_str=as_str, overwrite=ow, param_image=wp, model=model, kernel_shape=list(kshape),
+                step = dict(call=ci, as_str=as_str, overwrite=ow, param_image=wp, model=model, kernel_shape=list(kshape), mask_partial=mp,
                             corr_existed=ce, param_existed=pe, outcome=['ok', 'FileExistsError', err][obs], changed=sorted(changed))
                 steps.append(step)
                 desc = dict(preseed=pre, history=list(steps))
@@ -119,7 +125,7 @@ def body(run):
                     shutil.rmtree(fresh, ignore_errors=True)
                     fresh.mkdir()
                     with RasterFuse(pair['src_fn'], pair['ref_fn']) as rf2:
-                        o2, e2 = call(rf2, fresh / 'corr.tif', (fresh / 'corr_PARAM.tif') if wp else None, False, False, model, kshape, mbm)
+                        o2, e2 = call(rf2, fresh / 'corr.tif', (fresh / 'corr_PARAM.tif') if wp else None, False, False, model, kshape, mbm, mask_partial=mp)
                     if o2 != 0:
                         problems['fresh run failed'] = e2
                     else:
